@@ -252,6 +252,13 @@ class MonC02(Monitor):
                     proposals=prop)
             ll = np.asarray(s.log_l[i][start:], dtype=float)
             self.neg_inf_seen += int(np.sum(ll == -np.inf))
+            mean_l = float(logsumexp(ll) - np.log(cnt))
+            got_l = float(s.shell_log_l[i])
+            if not (abs(got_l - mean_l) <= 1e-9 or (
+                    mean_l == -np.inf and got_l == -np.inf)):
+                bad('shell_likelihood', 'shell {}: recorded log mean '
+                    'likelihood {!r}, stored samples give {!r}'.format(
+                        i, got_l, mean_l), shell=i)
             terms.append(ll + (log_v - np.log(cnt)))
             total += cnt
         got_z = s.log_z
